@@ -1,36 +1,21 @@
-//! Trace the construction of one cell through the hooks: print every clip.
+//! Ad-hoc: reference cell of one generator, faces and vertices.
 use mvv::case::Case;
-use meshless_voronoi::verif_hooks as hooks;
-use meshless_voronoi::HalfSpace;
+use mvv::refmodel::{ref_cell, sites_rel, RefOpts};
 fn main() {
     let args: Vec<String> = std::env::args().collect();
     let c = Case::load(&args[1]).unwrap();
-    let only: Option<usize> = args.get(2).and_then(|s| s.parse().ok());
-    let gens = hooks::make_generators(&c.gens_v(), c.dimensionality());
-    let ea = glam::DVec3::from_array(c.eff_anchor());
-    let ew = glam::DVec3::from_array(c.eff_width());
-    let grid = hooks::Grid::new(ea, ew, c.periodic, c.dimensionality());
-    for i in 0..c.n() {
-        if only.map_or(false, |o| o != i) { continue; }
-        println!("=== cell {i} at {:?}", gens[i].loc());
-        let seq = hooks::nn_sequence(&c.gens_v(), i, c.dimensionality(), c.periodic, ew, 10000);
-        let mut cell = hooks::cell_init(gens[i].loc(), i, &grid);
-        for (j, shift) in seq.into_iter().skip(1) {
-            let ngb = gens[j].loc() + shift.unwrap_or(glam::DVec3::ZERO);
-            let dx = cell.loc - ngb;
-            let dist = dx.length();
-            if hooks::cell_safety_radius(&cell) < dist { println!("  stop: safety radius {} < {}", hooks::cell_safety_radius(&cell), dist); break; }
-            let n = dx / dist;
-            let p = 0.5 * (cell.loc + ngb);
-            println!("  clip by j={j} shift={:?} ngb={:?} dist={dist:e} n={:?}", shift, ngb, n);
-            let r = std::panic::catch_unwind(std::panic::AssertUnwindSafe(|| {
-                hooks::cell_clip(&mut cell, HalfSpace::new(n, p, Some(j), shift), &gens, &grid);
-            }));
-            if r.is_err() { println!("  PANIC"); 
-                for (pi, p) in cell.clipping_planes.iter().enumerate() { println!("      plane {pi} n {:?} right {:?} shift {:?}", p.plane.n, p.right_idx, p.shift); }
-                for v in &cell.vertices { println!("      v {:?} dual {:?}", v.loc, v.dual); }
-                break; }
-            println!("     -> {} vertices, {} planes", cell.vertices.len(), cell.clipping_planes.len());
-        }
+    let i: usize = args[2].parse().unwrap();
+    let r = ref_cell(&c, i, &RefOpts::default());
+    println!("V {:e} cuts {} nverts {}", r.volume, r.cuts, r.vertices.len());
+    for f in &r.faces {
+        println!("  face {:?} area {:e} centroid-g {:?}", f.tag, f.area, f.centroid - r.gen);
+    }
+    for v in &r.vertices {
+        println!("  v-g {:?}", *v - r.gen);
+    }
+    let mut s = sites_rel(&c, i, 2);
+    s.sort_by(|a, b| a.2.length().partial_cmp(&b.2.length()).unwrap());
+    for x in s.iter().take(12) {
+        println!("  site {} {:?} rel {:?} |{:e}|", x.0, x.1, x.2, x.2.length());
     }
 }
